@@ -269,7 +269,14 @@ private:
             if (id >= n) { continue; }
             ctl::thread_begin(id, seed_ * 131 + id);
             arrived_.fetch_add(1);
-            while (arrived_.load(std::memory_order_acquire) < n) { _mm_pause(); }
+            for (uint64_t w = 0; arrived_.load(std::memory_order_acquire) < n; ++w) {
+                // on an oversubscribed machine a peer may not be running: do not burn the whole time slice
+                if (w < 3000) {
+                    _mm_pause();
+                } else {
+                    sched_yield();
+                }
+            }
             (*fn_)(id);
             ctl::thread_end();
             done_.fetch_add(1, std::memory_order_release);
